@@ -1,6 +1,7 @@
 (* C07 property theorems ONLY (each closed by an already proved lemma) + assumptions. *)
 From Coq Require Import List NArith Bool Arith Lia.
-From RV Require Import C06.Model C06.Index C06.Run C07.Crash C07.Prefix C07.Restart.
+From Coq Require Import Reals.
+From RV Require Import C06.Model C06.Index C06.Run C06.Cadence C06.CadenceR C07.Crash C07.Prefix C07.Restart C07.Attach.
 Import ListNotations.
 Open Scope N_scope.
 
@@ -89,6 +90,37 @@ Proof.
   { repeat constructor; cbn; try lia; try discriminate; intros; try discriminate; try lia. }
   split; [vm_compute; lia|]. split; vm_compute; reflexivity.
 Qed.
+
+(* ---- restart of automatically snapshotted runs (attach logic of reb_simulation_save_to_file_{interval,step}) ---- *)
+(* re-attaching with the cadence already stored in the (restored) simulation changes nothing: the pending
+   threshold next / next_step persisted in the snapshot is kept *)
+Theorem C07_attach_same_cadence_keeps_state : forall s,
+  attach_interval (a_interval s) s = s /\ attach_step (a_step s) s = s.
+Proof. exact attach_same. Qed.
+Print Assumptions C07_attach_same_cadence_keeps_state.
+
+(* step cadence: crash at any byte of a later write (C07_crash_prefix_safe: the intact snapshots are exposed), restart
+   from the intact snapshot taken at step x = s0 + j*auto, re-attach with the same step count, run the remaining
+   heartbeats: exactly the snapshots of the uninterrupted run after x - no duplicate of x, none skipped *)
+Theorem C07_restart_cadence_step : forall auto s0 n j t w y, 0 < auto ->
+  let x := s0 + j * auto in x < s0 + N.of_nat n ->
+  let st := attach_step auto (snap_state_step auto x t w) in
+  (In y (hb_run (a_step st) (a_next_step st) (a_steps_done st) (N.to_nat (s0 + N.of_nat n - x)))
+   <-> (In y (hb_run auto s0 s0 n) /\ x < y)).
+Proof. exact restart_cadence_step. Qed.
+Print Assumptions C07_restart_cadence_step.
+
+(* ... whereas an attach that resets next_step to steps_done writes the restart snapshot a second time *)
+Theorem C07_reset_on_attach_duplicates : forall auto x n, 0 < auto -> In x (hb_run auto x x (S n)).
+Proof. exact reset_duplicates. Qed.
+
+(* interval cadence (reals): the snapshot written at heartbeat time s for threshold T persists next = T + I; the run
+   continued from it with the same interval produces exactly the rest of the uninterrupted sequence *)
+Theorem C07_restart_cadence_interval : forall (I next : R) ts1 s ts2 T,
+  runI I next (ts1 ++ [s]) = runI I next ts1 ++ [(s, T)] ->
+  runI I next (ts1 ++ s :: ts2) = runI I next ts1 ++ (s, T) :: runI I (T + I)%R ts2.
+Proof. exact restart_cadence_interval. Qed.
+Print Assumptions C07_restart_cadence_interval.
 
 (* Non-vacuity of the hypotheses of C07_crash_prefix_safe / C07_restart_write: the archive of the spoof witness *)
 Example C07_crash_hypotheses_inhabited :
